@@ -143,6 +143,39 @@ def gen_candidate(rnd, kind, qp=False, junk=False, dims=None):
     return I
 
 
+def rank_exact(rows, n):
+    """rank of a list of integer row vectors (exact, Fractions)"""
+    from fractions import Fraction as Fr
+    M = [[Fr(v) for v in r] for r in rows]
+    rk = 0
+    for col in range(n):
+        piv = None
+        for i in range(rk, len(M)):
+            if M[i][col] != 0:
+                piv = i
+                break
+        if piv is None:
+            continue
+        M[rk], M[piv] = M[piv], M[rk]
+        for i in range(len(M)):
+            if i != rk and M[i][col] != 0:
+                f = M[i][col] / M[rk][col]
+                M[i] = [a - f * b for a, b in zip(M[i], M[rk])]
+        rk += 1
+    return rk
+
+
+def thin_PG(I):
+    """True iff rank([P; G]) < n, i.e. H + G'W^-2 G is exactly singular for every scaling (only A completes the rank)"""
+    n = I['n']
+    w = wt(I['dims'])
+    rows = [[I['G'][j][r] for j in range(n)] for r in range(cdim(I['dims'])) if w[r] > 0]
+    if 'R' in I and n:
+        k = len(I['R'][0])
+        rows += [[I['R'][j][r] for j in range(n)] for r in range(k)]
+    return rank_exact(rows, n) < n
+
+
 def gen_candidates(seed, counts, qp=False):
     """counts: dict kind -> number"""
     rnd = random.Random(seed)
@@ -161,6 +194,7 @@ def gen_candidates(seed, counts, qp=False):
             k += 1
     for i, I in enumerate(out):
         I['id'] = i + 1
+        I['thinPG'] = thin_PG(I)
     return out
 
 
